@@ -74,7 +74,12 @@ func readValueCounts(p *encoding.Parser, a *ValueCounts) (int64, error) {
 	}
 	var total int64 = 4
 	n := binary.BigEndian.Uint32(b)
-	*a = make(ValueCounts, n)
+	// n is (possibly hostile) input: the slice grows as values actually arrive
+	prealloc := n
+	if prealloc > 1024 {
+		prealloc = 1024
+	}
+	*a = make(ValueCounts, 0, prealloc)
 	for i := uint32(0); i < n; i++ {
 		b, err = p.NextBytes(4)
 		if err != nil {
@@ -93,10 +98,10 @@ func readValueCounts(p *encoding.Parser, a *ValueCounts) (int64, error) {
 			return 0, p.ParseError("error reading value: %v", err)
 		}
 		total += int64(l)
-		(*a)[i] = ValueCount{
+		*a = append(*a, ValueCount{
 			Count: count,
 			Value: string(b),
-		}
+		})
 	}
 	return total, nil
 }
